@@ -63,8 +63,8 @@ def run(pid, tier, seed, njobs=None, kind_of="iter"):
     verdict = lib.Verdict(pid)
     rng = random.Random(seed)
     n = njobs or (1000 if tier == "quick" else 12000)
-    jobs = [iter_job(rng, "%s-%05d" % (pid.lower(), i), kind_of) for i in range(n)]
-    res = lib.run_jobs(jobs, pid.lower(), procs=8, timeout=900)
+    jobs = lib.scenario_jobs(pid, rec=[]) + [iter_job(rng, "%s-%05d" % (pid.lower(), i), kind_of) for i in range(n)]
+    res = lib.run_jobs(jobs, pid.lower(), procs=8, timeout=1800)
     projected, byid, outcomes = [], {}, {}
     for job, trace, crash in res:
         if crash is not None:
